@@ -14,12 +14,17 @@ META = {
             "exactly rooted-clean(p) followed by rooted-clean(f) (no '', '.', '..' elements, inside the package, "
             "inside srcDir/outDir after env.src/env.out, also with the output suffixes); a file set is exactly "
             "explicit + (selected minus ignored), sorted and duplicate-free, and a directory ignore is the "
-            "segment-wise strictly-beneath relation.  The model is tied to the code by exhaustive small-string "
+            "segment-wise strictly-beneath relation; Go's path.Match and filepath.Match are modelled in full "
+            "(classes, escapes, multi-byte runes, ErrBadPattern; total, sound for the declarative reading, '*'/'?' "
+            "never match '/', '?' takes one rune), filepath.Glob level by level with its error paths, and source "
+            "trees with symbolic links (the recursive listing never follows one).  The model is tied to the code by exhaustive small-string "
             "and generated differential runs evaluated inside Coq, and by translator obligations on the "
             "source text of the resolution functions, the exclusion lists and the table of resolver calls.",
     "note": "Trusted: Coq kernel + vm_compute; translator gen/caco_names.go; harness and caco3/verif_names.go shim; "
-            "path.Match/filepath.Glob modelled on the fragment literals,'*','?' over ASCII names (classes/escapes "
-            "excluded); file system walk order and symlinks not modelled; docker-backed rules not run; no axioms.",
+            "path.Match/filepath.Match/filepath.Glob modelled after the Go 1.23 sources (completeness of the greedy "
+            "chunk loop is exercised, not proved); file system walk order not modelled; docker-backed rules (which "
+            "follow file symlinks when streaming inputs) not run; open finding: selections pass through linked "
+            "directories; no axioms.",
     "technique": "Coq proof (stack invariant of Clean, induction over segments) + go/ast translation of constants "
                  "and call table + vm_compute correspondence",
 }
@@ -28,12 +33,25 @@ MODEL = ["theories/Caco/NamesCorr.vo"]
 PROOFS = ["theories/Props/C12.vo"]
 STATEMENT_FILES = ["theories/Props/C12.v", "theories/Caco/NamesGen.v"]
 
-ERR = {"": 0, "nofiles": 1, "listerr": 2}
+ERR = {"": 0, "nofiles": 1, "listerr": 2, "badpat": 3}
+KIND = {"f": "TFile", "d": "TDir", "lf": "TLinkFile", "ld": "TLinkDir", "lb": "TLinkBad"}
+
+
+def kind(e):
+    return e.get("k") or ("d" if e["d"] else "f")
+
+
+def ctree(tree):
+    return "[" + "; ".join("{| t_path := %s; t_kind := %s |}" % (cb(e["p"]), KIND[kind(e)]) for e in tree) + "]"
+
+
+def chex(h):
+    return "[" + ";".join(str(b) for b in bytes.fromhex(h)) + "]"
 SKIP_FILES = {".gitignore", "COPYING", "tags", ".DS_Store"}
 
 
 def cb(s):
-    return "[" + ";".join(str(b) for b in s.encode("latin-1")) + "]"
+    return "[" + ";".join(str(b) for b in s.encode("utf-8")) + "]"
 
 
 def cbl(ss):
@@ -51,7 +69,10 @@ def to_coq(c):
     if op == "pjoin":
         return "CPJoin %s %s" % (cbl(c["elems"]), cb(c["out"]))
     if op == "match":
-        return "CMatch %s %s %s %s" % (cb(c.get("pat", "")), cb(c["s"]), cbool(c["bool"]), cbool(bool(c.get("err"))))
+        enc = chex if c.get("hex") else cb
+        return "CMatch %s %s %s %s %s %s" % (enc(c.get("pat", "")), enc(c["s"]), cbool(c["bool"]),
+                                             cbool(c.get("err") == "badpat"), cbool(c.get("fbool", False)),
+                                             cbool(c.get("ferr") == "badpat"))
     if op == "rel":
         return "CRel %s %s %s" % (cb(c["p"]), cb(c["f"]), cb(c["out"]))
     if op == "abs":
@@ -61,18 +82,18 @@ def to_coq(c):
     if op == "suffix":
         return "CSuffix %s %s" % (cb(c["s"]), cbl(c.get("outs")))
     if op == "fileset":
-        tree = "[" + "; ".join("{| t_path := %s; t_dir := %s |}" % (cb(e["p"]), cbool(e["d"]))
-                               for e in c["tree"]) + "]"
+        tree = ctree(c["tree"])
         r = c["rule"]
         rule = "{| r_name := %s; r_files := %s; r_select := %s; r_ignore := %s |}" % (
             cb(r["name"]), cbl(r["files"]), cbl(r["select"]), cbl(r["ignore"]))
         return "CFileSet %s %s %s %s %d %s %s" % (
             cb("src"), tree, cb(c["p"]), rule, ERR.get(c.get("err", ""), 9), cb(c["out"]), cbl(c.get("outs")))
+    if op == "buildkey":
+        return None
     if op == "build":
         if c.get("err"):
             return None
-        tree = "[" + "; ".join("{| t_path := %s; t_dir := %s |}" % (cb(e["p"]), cbool(e["d"]))
-                               for e in c["tree"]) + "]"
+        tree = ctree(c["tree"])
         r = c["rule"]
         rule = "{| r_name := %s; r_files := %s; r_select := %s; r_ignore := %s |}" % (
             cb(r["name"]), cbl(r["files"]), cbl(r["select"]), cbl(r["ignore"]))
@@ -147,10 +168,12 @@ def oracle_fileset(c):
         return None
     r, p = c["rule"], c["p"]
     if not all(simple(x) for x in r["select"] + r["ignore"]):
+        return None     # classes / escapes: the correspondence with the proved model decides
+    if any(kind(e) not in ("f", "d") for e in c["tree"]):
         return None
-    files = [e["p"] for e in c["tree"] if not e["d"]]
+    files = [e["p"] for e in c["tree"] if kind(e) == "f"]
     entries = [e["p"] for e in c["tree"]]
-    kinds = {e["p"]: e["d"] for e in c["tree"]}
+    kinds = {e["p"]: kind(e) == "d" for e in c["tree"]}
     idirs = [resolve_rel(p, i) for i in r["ignore"] if i.endswith("/")]
     ipats = [resolve_rel(p, i) for i in r["ignore"] if not i.endswith("/")]
 
@@ -197,6 +220,26 @@ def oracle_fileset(c):
     return None
 
 
+def outside_mechanism(c, n):
+    """How a name that physically lies outside the source tree got listed: 'explicit' (named in Files),
+    'glob' (a glob selection went through the link), 'walk-root' (the directory of a recursive selection
+    itself passes the link) or 'walk-descended' (a recursive listing descended a link: never on the
+    modelled code)."""
+    r, p = c["rule"], c["p"]
+    links = set(e["p"] for e in c["tree"] if kind(e) in ("lf", "ld", "lb"))
+    if n in set(resolve_any(p, f) for f in r["files"]):
+        return "explicit"
+    for sel in r["select"]:
+        if sel == "**" or sel.endswith("/**"):
+            root = "/".join(py_clean_segs(p)) if sel == "**" else resolve_rel(p, sel[:-3])
+            if beneath(n, root) or n == root:
+                parts = root.split("/") if root else []
+                if any("/".join(parts[:i + 1]) in links for i in range(len(parts))):
+                    return "walk-root"
+                return "walk-descended"
+    return "glob"
+
+
 def file_ok(name):
     return name not in SKIP_FILES and not name.endswith(".caco3")
 
@@ -205,6 +248,11 @@ def impl_oracle(c):
     if c.get("crash"):
         return ("impl:crash", "panic: %s" % c["crash"][:200])
     op = c["op"]
+    if op in ("fileset", "build") and c.get("outside"):
+        how = sorted(set(outside_mechanism(c, n) for n in c["outside"]))
+        return ("impl:symlink:outside:" + "+".join(how),
+                "file set lists %r, which physically lie outside the source tree: reached through a symbolic "
+                "link to a directory (%s)" % (c["outside"][:4], ", ".join(how)))
     if op in ("rel", "abs"):
         out = c["out"]
         if not segs_clean(out) or out.startswith("/"):
@@ -226,6 +274,19 @@ def impl_oracle(c):
         for o in [c["out"]] + (c.get("deps") or []) + (c.get("outs") or []):
             if not segs_clean(o) or o.startswith("/"):
                 return ("impl:rule:unclean", "rule %s resolved a name to %r" % (c["kind"], o))
+    if op == "buildkey":
+        bad = [p for p in c.get("changed") or [] if not (p == "deep/ws/out" or p.startswith("deep/ws/out/"))]
+        if bad:
+            return ("impl:build:outside-out", "a build changed %r, outside the workspace's output tree" % bad[:4])
+        if c.get("loaded") and c.get("pkgoutside"):
+            return ("impl:build:package-outside-src",
+                    "repo-map key %r: the build file and sources of the package were read from outside the "
+                    "workspace's source tree (file set lists %r)" % (c["p"], (c.get("outs") or [])[:3]))
+        if c.get("loaded"):
+            for o in [c["out"]] + (c.get("outs") or []):
+                if not segs_clean(o):
+                    return ("impl:build:unclean", "built file set lists %r" % o)
+        return None
     if op == "build":
         bad = [p for p in c.get("changed") or [] if not (p == "ws/out" or p.startswith("ws/out/"))]
         if bad:
@@ -362,15 +423,20 @@ def run(ck):
         trusted=["Coq 8.16.1 kernel + vm_compute",
                  "translator gen/caco_names.go (exclusion lists, suffixes, source text, resolver-call table)",
                  "harness/cmd/c12 + checks/c12.py comparison and oracle", "caco3/verif_names.go shim",
-                 "modelled not verified: path.Match/filepath.Glob (fragment literals * ?), filepath.WalkDir, "
-                 "filepath.Rel under srcDir, the OS file system"],
-        rule="exhaustive: path.Clean on every string over {a,b,.,/} up to length 7 (9 thorough); path.Join on all "
+                 "modelled not verified: path.Match, filepath.Match, filepath.Glob, filepath.WalkDir, "
+                 "utf8.DecodeRuneInString, filepath.Rel under srcDir, the OS file system"],
+        rule="exhaustive: path.Clean on every string over {a,b,.,/} up to length 6 and a seed-chosen quarter of length 7 (all up to 9 thorough); path.Join on all "
              "pairs/triples of short strings; makeRelPath/makePath on every name of <=4 segments from "
-             "{a,.,..,''} x 7 package paths; env.src/out; path.Match on patterns over {a,*,?,/}; rule "
+             "{a,.,..,''} x 7 package paths; env.src/out; path.Match AND filepath.Match on patterns over {a,*,?,/} "
+             "and over {a,b,[,],^,-,\\,*,?} up to length 3 plus a seed-chosen 1/16 of length 4, a class/escape "
+             "corpus, multi-byte and invalid UTF-8 (hex); file sets over trees with five kinds of symbolic link; "
+             "end-to-end builds with unclean repo-map keys and with linked packages; rule "
              "constructors with hostile strings; seeded random longer names; file sets on random consistent "
              "trees of <=5 files from a pool with shared prefixes x random select/ignore/files. A case is "
              "trivial when all its input strings are empty; distinct = distinct inputs",
-        assumptions=["ASCII names (path.Match '?' consumes a rune)", "package paths handed to constructors are "
-                     "what the loader produces (makeRelPath results); hostile package paths are still covered "
-                     "by the name theorems", "no symbolic links inside the source tree",
+        assumptions=["package paths handed to constructors are what the loader produces (makeRelPath results, now "
+                     "also for repo-map keys); hostile package paths are still covered by the name theorems",
+                     "symbolic links in the source tree are listed by name and lstat'ed, never opened, by the code "
+                     "run here; a link to a directory is passed by glob selections, by the root of a recursive "
+                     "selection and by explicit names (open finding)",
                      "glob selects list matched directories as well as files (as the code does)"])
